@@ -13,29 +13,37 @@ LEVEL = "proof"
 PROPS_FILE = "C17.v"
 RUN_MODULE = "RunC17"
 TRANSLATOR_UNITS = []
-RULE = ("exhaustive: every word of length L (quick 7, thorough 8; PulseSynchronizer 6/8) over {output edge, input "
-        "toggle, toggle coincident with the edge} (PulseSynchronizer: {o edge, i edge, both edges, input toggle}) for "
-        "stages=2 (thorough: also stages=3 with L-1), every init/i0/async_edge, outputs read after every step (so all "
-        "prefixes, i.e. all words of length <= L, are covered); "
-        "FFSynchronizer power-up family: synchroniser init (absent / 0 / every value) x input Signal init (every value) x "
-        "input = Signal or ~Signal for widths 1..3 signed/unsigned, stages 2,3, and widths 8,12 with 0xA5 / all-ones / random, "
-        "stages 2..5; seeded random walks of ~300 steps for stages 2..5, widths 0..4 signed/unsigned, synchroniser init "
-        "(absent 30% / 0 / random) drawn independently of the input init (all-ones 30% / random / 0), async_edge pos/neg, "
-        "posedge and negedge output domains, four clock-ratio regimes (o fast, i fast, balanced with coincident edges, "
-        "well-formed single-cycle pulses separated by an output edge) with inactive edges and out-of-range input values; "
-        "constructor stage checks and RequirePosedge rejection compared on exception class. "
+RULE = ("exhaustive words over {output edge, input toggle, toggle coincident with the edge} (PulseSynchronizer: {o edge, i edge, "
+        "both edges, input toggle}), outputs read after every step so every prefix is covered: stages=2 length 7 (thorough 8) with "
+        "ONE parameter variant drawn per word in quick (ff: 6 (init, input init) pairs incl. init absent; af: async_edge x input init; "
+        "rs: input init, half of the words), stages=3 length 5 (thorough 7) with all variants; PulseSynchronizer stages 2 / 3 "
+        "length 6 / 5 (thorough 8 / 7), input init drawn per word, 15% negedge input domain; same-domain PulseSynchronizer "
+        "(i_domain = o_domain) over {edge, toggle} length 8 (10); FFSynchronizer under the output domain's reset (family ffr: "
+        "words over {edge, input toggle, rst:=1, rst:=0}, sync / async-reset domain x reset_less True (passed or defaulted) / False, "
+        "plus 80-step walks with rst changing alone or in the same ctx.set as the edge -- a coincident rst RISE only in sync-reset "
+        "domains); FFSynchronizer power-up family: synchroniser init (absent / 0 / every value) x input Signal init (every value) "
+        "x input = Signal or ~Signal x o of the same or another shape, widths 1..3 and 8, 12; seeded random walks of 300 steps "
+        "for stages 2..5, widths 0..4 signed/unsigned, synchroniser init (absent 30% / 0 / random) independent of the input init "
+        "(all-ones 30% / random / 0), 30% o of another width/signedness, async_edge pos/neg, posedge and negedge output and input "
+        "domains, 25% default domain (domain named sync, o_domain=/domain= omitted), four clock-ratio regimes (o fast, i fast, "
+        "balanced with coincident edges, well-formed single-cycle pulses) with inactive edges and out-of-range input values; "
+        "constructor stage checks and RequirePosedge rejection (explicit and default domain) compared on exception class. "
         "non-trivial = the observed output changes at least once; distinct by case hash")
-MODELLED = ("FFSynchronizer/AsyncFFSynchronizer/ResetSynchronizer/PulseSynchronizer.elaborate and the simulator's treatment "
-            "of clock edges, simultaneous edges and asynchronous reset (process runs on rst rise, init while rst is high) are "
-            "modelled in coq/Model/Cdc.v; validated only: Module/Fragment elaboration, the simulator's delta-cycle engine, "
-            "RequirePosedge (modelled as the precondition edge = pos; rejection class compared), constructor argument checks; "
-            "out of scope: platform overrides get_ff_sync/get_async_ff_sync, max_input_delay, reset_less=False, o wider/narrower than i")
-ASSUMPTIONS = ["the output-domain reset is never asserted (FFSynchronizer flops are reset_less by default)",
-               "a value driven by the testbench in the same ctx.set as a clock edge is seen by that edge (simulator semantics; "
-               "modelled as the group [Ein v; edge])"]
+MODELLED = ("FFSynchronizer (incl. init default, reset_less, o of another shape, sync/async output-domain reset), "
+            "AsyncFFSynchronizer, ResetSynchronizer, PulseSynchronizer.elaborate and the simulator's treatment of clock edges, "
+            "simultaneous edges and asynchronous reset (process runs on rst rise, init while rst is high; F7: the whole process runs) "
+            "are modelled in coq/Model/Cdc.v; validated only: Module/Fragment elaboration, the simulator's delta-cycle engine, "
+            "RequirePosedge (which components carry it is modelled, the rejection class compared), constructor argument checks; "
+            "not generated: rst rising in the same ctx.set as the clock edge in an async-reset domain (one process run in the "
+            "simulator, not expressible as a sequence of model events); out of scope: platform overrides "
+            "get_ff_sync/get_async_ff_sync, max_input_delay")
+ASSUMPTIONS = ["a value driven by the testbench in the same ctx.set as a clock edge is seen by that edge (simulator semantics; "
+               "modelled as the group [Ein v; edge])",
+               "C17_ff_sync_latency is about a domain whose reset is not asserted or a sync-reset domain with reset_less flops "
+               "(C17_ff_no_reset, C17_ff_reset_less_ignores_reset); async-reset domain + reset_less flops: C17_ff_async_reset_rise_refuted"]
 SHARD = 1000
 
-_HDR = {"ff": 1, "af": 1, "rs": 1, "ps": 3}      # answer = header entries, then the packed trace
+_HDR = {"ff": 1, "ffr": 1, "af": 1, "rs": 1, "ps": 3}      # answer = header entries, then the packed trace
 EXC = {"DomainRequirementFailed": 1, "TypeError": 2, "ValueError": 3}
 
 
@@ -104,32 +112,59 @@ def _walk(rng, n, regime, vals, two_clocks):
     return steps
 
 
+RS_LETTERS = [(1, False), (0, True), (5, False), (6, False)]    # ffr: edge, input toggle, rst:=1, rst:=0
+
+
 def gen_cases(tier, seed):
+    """The exhaustive word families are SAMPLED over their parameter variants: every word occurs, with
+    one variant drawn per word in the quick tier (all variants for the shorter stages = 3 words), so
+    every (family, variant) class is represented by hundreds of words."""
     rng = random.Random(seed)
     thorough = tier == "thorough"
     cases = []
-    L = 8 if thorough else 7
+    L = 8 if thorough else 7          # stages = 2 words
+    L3 = 7 if thorough else 5         # stages = 3 words
     LP = 8 if thorough else 6
-    # --- exhaustive small scope: stages = 2 with words of length L (thorough: also stages = 3, length L - 1)
-    for st, n in (((2, L), (3, L - 1)) if thorough else ((2, L),)):
+    FFV = ((0, 0), (1, 0), (None, 1), (None, 0), (0, 1), (1, 1))      # (synchroniser init, input init)
+    AFV = ((True, 0), (True, 1), (False, 0), (False, 1))              # (async_edge pos, input init)
+    def variants(vs, full):
+        if full and thorough and len(vs) > 4:
+            return rng.sample(vs, 3)
+        return vs if full else (rng.choice(vs),)
+    for st, n, full in ((2, L, thorough), (3, L3, True)):
         for word in itertools.product(range(3), repeat=n):
-            for init, i0 in ((0, 0), (1, 0), (None, 1), (None, 0) if word[0] else (0, 1)):
+            for init, i0 in variants(FFV, full):
                 cases.append({"k": "ff", "w": 1, "sg": False, "st": st, "init": init, "i0": i0, "inv": False, "neg": False,
                               "ev": _toggle_word(word, i0, FF_LETTERS), "r": "exh"})
-            for pos in (True, False):
-                for i0 in (0, 1):
-                    cases.append({"k": "af", "pos": pos, "st": st, "i0": i0,
-                                  "ev": _toggle_word(word, i0, FF_LETTERS), "r": "exh"})
-            for i0 in (0, 1):
-                cases.append({"k": "rs", "st": st, "i0": i0, "ev": _toggle_word(word, i0, FF_LETTERS), "r": "exh"})
-    for word in itertools.product(range(4), repeat=LP):
-        for i0 in (0, 1):
-            cases.append({"k": "ps", "st": 2, "i0": i0, "neg": False, "ev": _toggle_word(word, i0, PS_LETTERS), "r": "exh"})
-            if not thorough or word[0] != 3:
+            for pos, i0 in variants(AFV, full):
+                cases.append({"k": "af", "pos": pos, "st": st, "i0": i0,
+                              "ev": _toggle_word(word, i0, FF_LETTERS), "r": "exh"})
+            for i0 in variants((0, 1), full and (thorough or rng.random() < 0.5)):
+                if thorough or st == 3 or rng.random() < 0.5:
+                    cases.append({"k": "rs", "st": st, "i0": i0, "ev": _toggle_word(word, i0, FF_LETTERS), "r": "exh"})
+    for st, n in ((2, LP), (3, LP - 1)):
+        for word in itertools.product(range(4), repeat=n):
+            i0 = rng.randrange(0, 2)
+            cases.append({"k": "ps", "st": st, "i0": i0, "neg": False, "negi": rng.random() < 0.15,
+                          "ev": _toggle_word(word, i0, PS_LETTERS), "r": "exh"})
+            if st == 2 and (not thorough or rng.random() < 0.5):
                 cases.append({"k": "sep", "i0": i0, "ev": _toggle_word(word, i0, PS_LETTERS), "r": "exh"})
+    # PulseSynchronizer with i_domain == o_domain: words over {edge, input toggle}
+    for st in (2, 3):
+        for word in itertools.product((0, 3), repeat=LP + 2):
+            for i0 in (0, 1):
+                cases.append({"k": "ps", "st": st, "i0": i0, "neg": False, "same": True,
+                              "ev": _toggle_word(word, i0, PS_LETTERS), "r": "exh"})
+    # FFSynchronizer under the output domain's reset: words over {edge, input toggle, rst:=1, rst:=0}
+    for st, n in ((2, 6 if thorough else 5), (3, 5 if thorough else 4)):
+        for word in itertools.product(range(4), repeat=n):
+            for asy, rl in variants(((False, False), (False, True), (True, False), (True, True)), thorough or st == 3):
+                cases.append({"k": "ffr", "w": 1, "sg": False, "st": st, "init": rng.choice((None, 0, 1)), "i0": 1,
+                              "async": asy, "rl": rl, "rlx": rng.random() < 0.5,
+                              "ev": _toggle_word(word, 1, RS_LETTERS), "r": "exh"})
     # --- random walks
     N = 300
-    reps = 30 if thorough else 8
+    reps = 24 if thorough else 6
     for st in (2, 3, 4, 5):
         for regime in ("ofast", "ifast", "coinc", "pulses"):
             for _ in range(reps):
@@ -144,25 +179,60 @@ def gen_cases(tier, seed):
                     init = None if r < 0.3 else 0 if r < 0.4 else vals()
                     r = rng.random()
                     i0 = (-1 if sg else (1 << w) - 1) if r < 0.3 else vals() if r < 0.9 else 0
-                    cases.append({"k": "ff", "w": w, "sg": sg, "st": st, "init": init, "i0": i0,
-                                  "inv": w > 0 and rng.random() < 0.25, "neg": rng.random() < 0.25,
-                                  "ev": _walk(rng, N, regime, vals, False), "r": regime})
+                    c = {"k": "ff", "w": w, "sg": sg, "st": st, "init": init, "i0": i0,
+                         "inv": w > 0 and rng.random() < 0.25, "neg": rng.random() < 0.25, "dd": rng.random() < 0.25,
+                         "ev": _walk(rng, N, regime, vals, False), "r": regime}
+                    if rng.random() < 0.3:     # o of another shape than i
+                        c["osg"] = rng.random() < 0.4
+                        c["ow"] = rng.randrange(1 if c["osg"] else 0, 7)
+                    cases.append(c)
                 bit = lambda: rng.randrange(0, 2)
                 for pos in (True, False):
-                    cases.append({"k": "af", "pos": pos, "st": st, "i0": bit(),
+                    cases.append({"k": "af", "pos": pos, "st": st, "i0": bit(), "dd": rng.random() < 0.25,
                                   "ev": _walk(rng, N, regime, bit, False), "r": regime})
-                cases.append({"k": "rs", "st": st, "i0": bit(), "ev": _walk(rng, N, regime, bit, False), "r": regime})
+                cases.append({"k": "rs", "st": st, "i0": bit(), "dd": rng.random() < 0.25,
+                              "ev": _walk(rng, N, regime, bit, False), "r": regime})
                 for _ in range(3):
                     ev = _walk(rng, N, regime, bit, True)
                     i0 = bit() if regime != "pulses" or rng.random() < 0.3 else 0
-                    cases.append({"k": "ps", "st": st, "i0": i0, "neg": rng.random() < 0.25, "ev": ev, "r": regime})
+                    cases.append({"k": "ps", "st": st, "i0": i0, "neg": rng.random() < 0.25, "negi": rng.random() < 0.25,
+                                  "same": rng.random() < 0.1, "dd": rng.random() < 0.15, "ev": ev, "r": regime})
                     cases.append({"k": "sep", "i0": i0, "ev": ev, "r": regime})
-    # --- power-up: synchroniser init (None / 0 / k) x input init (0 / non-zero / all-ones), Signal and ~Signal inputs;
-    #     st + 1 output edges, one input change, st + 1 output edges
-    def power_up(w, sg, st, init, i0, inv, v2, neg=False, pre=()):
+            # walks with the output domain's reset toggling (family ffr), 80 steps
+            for _ in range(reps):
+                w = rng.randrange(1, 5)
+                sg = rng.random() < 0.4
+                lo, hi = (-(1 << (w - 1)), (1 << (w - 1))) if sg else (0, 1 << w)
+                asy = rng.random() < 0.5
+                ev, rst = [], 0
+                for _ in range(80):
+                    r = rng.random()
+                    v = rng.randrange(lo, hi) if rng.random() < 0.3 else None
+                    if r < 0.45:
+                        kind = 1
+                    elif r < 0.55:
+                        kind = 4
+                    elif r < 0.70:
+                        kind, v = 0, rng.randrange(lo, hi)
+                    elif r < 0.85:
+                        rst ^= 1
+                        kind = 5 if rst else 6
+                    else:                  # rst changes in the same ctx.set as the edge (a rise: sync-reset domains only)
+                        rst ^= 1
+                        kind = (7 if not asy else 5) if rst else 2
+                    ev.append([kind, v])
+                cases.append({"k": "ffr", "w": w, "sg": sg, "st": st, "init": rng.choice((None, 0, rng.randrange(lo, hi))),
+                              "i0": rng.randrange(lo, hi), "async": asy, "rl": rng.random() < 0.5, "rlx": rng.random() < 0.5,
+                              "dd": rng.random() < 0.25, "ev": ev, "r": regime})
+    # --- power-up: synchroniser init (None / 0 / k) x input init (0 / non-zero / all-ones), Signal and ~Signal inputs,
+    #     o of the same or of another shape; st + 1 output edges, one input change, st + 1 output edges
+    def power_up(w, sg, st, init, i0, inv, v2, neg=False, pre=(), oshape=None):
         ev = list(pre) + [[1, None]] * (st + 1) + [[0, v2]] + [[1, None]] * (st + 1)
-        cases.append({"k": "ff", "w": w, "sg": sg, "st": st, "init": init, "i0": i0, "inv": inv, "neg": neg,
-                      "ev": [list(e) for e in ev], "r": "init"})
+        c = {"k": "ff", "w": w, "sg": sg, "st": st, "init": init, "i0": i0, "inv": inv, "neg": neg,
+             "dd": rng.random() < 0.2, "ev": [list(e) for e in ev], "r": "init"}
+        if oshape is not None:
+            c["ow"], c["osg"] = oshape
+        cases.append(c)
     for w in (1, 2, 3):
         for sg in (False, True):
             lo, hi = (-(1 << (w - 1)), (1 << (w - 1))) if sg else (0, 1 << w)
@@ -170,7 +240,13 @@ def gen_cases(tier, seed):
                 for init in [None] + list(range(lo, hi)):
                     for i0 in range(lo, hi):
                         for inv in (False, True):
-                            power_up(w, sg, st, init, i0, inv, rng.randrange(lo, hi))
+                            if not thorough and w == 3 and rng.random() < 0.5:
+                                continue
+                            osh = None
+                            if rng.random() < 0.3:
+                                osg = rng.random() < 0.5
+                                osh = (rng.randrange(1 if osg else 0, 6), osg)
+                            power_up(w, sg, st, init, i0, inv, rng.randrange(lo, hi), oshape=osh)
     for w in (8, 12):
         full = (1 << w) - 1
         for sg in (False, True):
@@ -179,15 +255,19 @@ def gen_cases(tier, seed):
                 for init in (None, 0, 0xA5, full, rng.randrange(lo, hi), rng.randrange(lo, hi)):
                     for i0 in (0xA5, full, -1, 1, 0, rng.randrange(lo, hi), rng.randrange(lo, hi)):
                         for inv in (False, True):
+                            if not thorough and rng.random() < 0.5:
+                                continue
                             pre = [[rng.choice((0, 4)), None]] * rng.randrange(0, 2)
-                            power_up(w, sg, st, init, i0, inv, rng.randrange(lo, hi), rng.random() < 0.2, pre)
-    # --- constructor checks and RequirePosedge
+                            osh = (rng.choice((4, 8, 12, 16)), rng.random() < 0.5) if rng.random() < 0.3 else None
+                            power_up(w, sg, st, init, i0, inv, rng.randrange(lo, hi), rng.random() < 0.2, pre, osh)
+    # --- constructor checks and RequirePosedge (explicit and default domain)
     for comp in ("ff", "af", "rs", "ps"):
         for st in (-3, -1, 0, 1, 2, 3, 7):
             cases.append({"k": "stages", "comp": comp, "st": st})
         for edge in ("pos", "neg"):
             for st in (2, 3):
-                cases.append({"k": "posedge", "comp": comp, "edge": edge, "st": st})
+                for dd in (False, True):
+                    cases.append({"k": "posedge", "comp": comp, "edge": edge, "st": st, "dd": dd})
     rng.shuffle(cases)       # long walks and short words mixed: evenly sized shards
     return cases
 
@@ -209,12 +289,22 @@ def _py_separated(i0, steps):
     return "PP" not in s
 
 
-def _drive(m, i_sig, o_sig, cd_o, cd_i, neg_o, steps, monitor):
-    """runs the testbench; returns the list of outputs (initial, then after every step)."""
+def _eff_ev(c):
+    """steps with the kinds a same-domain PulseSynchronizer really sees (every edge is an edge of both domains)"""
+    if c.get("same"):
+        return [[3 if kind in (1, 2, 3) else kind, v] for kind, v in c["ev"]]
+    return c["ev"]
+
+
+def _drive(m, i_sig, o_sig, cd_o, cd_i, neg_o, steps, monitor, neg_i=False, same=False, rst_mode=False):
+    """runs the testbench; returns the list of outputs (initial, then after every step).
+    same: the input domain IS the output domain (kinds 1, 2, 3 all mean an edge of that one clock);
+    rst_mode (family ffr): kind 5 rst:=1, 6 rst:=0, 7 rst:=1 with the edge, 2 rst:=0 with the edge."""
     from amaranth.hdl import Cat
     from amaranth.sim import Simulator
     out = []
     act_o = 0 if neg_o else 1       # clock level after the active edge of the output domain
+    act_i = 0 if neg_i else 1
 
     def apply(ctx, assigns):
         """one ctx.set for all (signal, value) pairs"""
@@ -231,21 +321,24 @@ def _drive(m, i_sig, o_sig, cd_o, cd_i, neg_o, steps, monitor):
 
     async def tb(ctx):
         lev_o, lev_i = 0, 0
-        if neg_o:                    # bring the clock to its rest level (inactive edge)
-            ctx.set(cd_o.clk, 1)
-            lev_o = 1
+        rest = []                    # bring the clocks to their rest level (inactive edge)
+        if neg_o:
+            rest.append((cd_o.clk, 1)); lev_o = 1
+        if neg_i and cd_i is not None:
+            rest.append((cd_i.clk, 1)); lev_i = 1
+        apply(ctx, rest)
         out.append(int(ctx.get(o_sig)))
         for kind, v in steps:
-            need_o = kind in (1, 3)
+            need_o = kind in (1, 3) or (same and kind == 2) or (rst_mode and kind in (2, 7))
             need_i = kind in (2, 3) and cd_i is not None
             # a clock that must make an active edge returns to its rest level first (inactive edge)
             pre = []
             if need_o and lev_o == act_o:
                 lev_o = 1 - act_o
                 pre.append((cd_o.clk, lev_o))
-            if need_i and lev_i == 1:
-                lev_i = 0
-                pre.append((cd_i.clk, 0))
+            if need_i and lev_i == act_i:
+                lev_i = 1 - act_i
+                pre.append((cd_i.clk, lev_i))
             if pre:
                 apply(ctx, pre)
                 if int(ctx.get(o_sig)) != out[-1]:
@@ -255,20 +348,24 @@ def _drive(m, i_sig, o_sig, cd_o, cd_i, neg_o, steps, monitor):
                 lev_o = act_o
                 assigns.append((cd_o.clk, lev_o))
             if need_i:
-                lev_i = 1
-                assigns.append((cd_i.clk, 1))
+                lev_i = act_i
+                assigns.append((cd_i.clk, lev_i))
             if kind == 4:
                 if lev_o == act_o:
                     lev_o = 1 - act_o
                     assigns.append((cd_o.clk, lev_o))
-                if cd_i is not None and lev_i == 1:
-                    lev_i = 0
-                    assigns.append((cd_i.clk, 0))
+                if cd_i is not None and lev_i == act_i:
+                    lev_i = 1 - act_i
+                    assigns.append((cd_i.clk, lev_i))
+            if rst_mode and kind in (5, 7):
+                assigns.append((cd_o.rst, 1))
+            if rst_mode and kind in (6, 2):
+                assigns.append((cd_o.rst, 0))
             if v is not None:
                 assigns.append((i_sig, v))
             apply(ctx, assigns)
             out.append(int(ctx.get(o_sig)))
-            monitor.step(ctx, kind, out[-1])
+            monitor.step(ctx, 3 if same and kind in (1, 2, 3) else kind, out[-1])
 
     sim = Simulator(m)
     sim.add_testbench(tb)
@@ -282,12 +379,30 @@ class _Mon:
 
 
 class _FFMon(_Mon):
-    """shift register of the last `stages` input values seen at output edges."""
-    def __init__(self, i_sig, stages, init_norm):
-        self.i = i_sig; self.regs = [init_norm] * stages
+    """shift register of the last `stages` input values seen at output edges; conv = value as seen through o."""
+    def __init__(self, i_sig, stages, init_norm, conv=lambda v: v):
+        self.i = i_sig; self.regs = [init_norm] * stages; self.conv = conv
     def step(self, ctx, kind, o):
         if kind in (1, 3):
             self.regs = [int(ctx.get(self.i))] + self.regs[:-1]
+        if o != self.conv(self.regs[-1]):
+            self.ok = False
+
+
+class _FFRMon(_Mon):
+    """the same with the output domain's reset: at an edge resettable flops load init while rst is high; in an
+    async-reset domain a rise of rst runs the same process (reset_less flops shift: F7)."""
+    def __init__(self, i_sig, rst_sig, stages, init_norm, async_reset, reset_less):
+        self.i = i_sig; self.rst = rst_sig; self.n = stages; self.init = init_norm
+        self.regs = [init_norm] * stages; self.a = async_reset; self.rl = reset_less; self.prev = 0
+    def step(self, ctx, kind, o):
+        rst = int(ctx.get(self.rst))
+        if kind in (1, 2, 7) or (self.a and rst and not self.prev):
+            if rst and not self.rl:
+                self.regs = [self.init] * self.n
+            else:
+                self.regs = [int(ctx.get(self.i))] + self.regs[:-1]
+        self.prev = rst
         if o != self.regs[-1]:
             self.ok = False
 
@@ -354,56 +469,79 @@ def run_impl(c):
     m = Module()
     if k == "posedge":
         from amaranth.sim import Simulator
-        m.domains.o = ClockDomain("o", clk_edge=c["edge"])
+        dd = bool(c.get("dd"))
+        dom = "sync" if dd else "o"
+        m.domains += ClockDomain(dom, clk_edge=c["edge"])
         m.domains.i = ClockDomain("i")
         i, o = Signal(), Signal()
         comp = c["comp"]
+        kw = {} if dd else {"o_domain": "o"}
         if comp == "ff":
-            m.submodules.dut = FFSynchronizer(i, o, o_domain="o", stages=c["st"])
+            m.submodules.dut = FFSynchronizer(i, o, stages=c["st"], **kw)
         elif comp == "af":
-            m.submodules.dut = AsyncFFSynchronizer(i, o, o_domain="o", stages=c["st"])
+            m.submodules.dut = AsyncFFSynchronizer(i, o, stages=c["st"], **kw)
         elif comp == "rs":
-            m.submodules.dut = ResetSynchronizer(i, domain="o", stages=c["st"])
+            m.submodules.dut = ResetSynchronizer(i, stages=c["st"], **({} if dd else {"domain": "o"}))
         else:
-            m.submodules.dut = PulseSynchronizer("i", "o", stages=c["st"])
+            m.submodules.dut = PulseSynchronizer("i", dom, stages=c["st"])
         try:
             Simulator(m)
             return [1]
         except Exception as e:
             return [0, EXC.get(type(e).__name__, 99)]
     neg = bool(c.get("neg", False))
-    m.domains.o = cd_o = ClockDomain("o", clk_edge="neg" if neg else "pos")
+    dd = bool(c.get("dd"))                 # default domain: the domain is called "sync" and o_domain=/domain= is omitted
+    dom = "sync" if dd else "o"
+    cd_o = ClockDomain(dom, clk_edge="neg" if neg else "pos", async_reset=bool(c.get("async")))
+    m.domains += cd_o
+    dkw = {} if dd else {"o_domain": "o"}
     st = c["st"]
     if k == "ff":
         sh = Shape(c["w"], c["sg"])
-        a, o = Signal(sh, init=c["i0"]), Signal(sh)
+        osh = Shape(c.get("ow", c["w"]), c.get("osg", c["sg"]))
+        a, o = Signal(sh, init=c["i0"]), Signal(osh)
         i = ~a if c.get("inv") else a              # the input may be any value expression
         kw = {} if c["init"] is None else {"init": c["init"]}       # None: constructed without init=
-        m.submodules.dut = FFSynchronizer(i, o, o_domain="o", stages=st, **kw)
-        mon = _FFMon(i, st, Const(c["init"] or 0, sh).value)
+        m.submodules.dut = FFSynchronizer(i, o, stages=st, **kw, **dkw)
+        mon = _FFMon(i, st, Const(c["init"] or 0, sh).value, lambda v: Const(v, osh).value)
         out = _drive(m, a, o, cd_o, None, neg, c["ev"], mon)
+        return [int(mon.ok)] + _pack_out(c, out)
+    if k == "ffr":
+        sh = Shape(c["w"], c["sg"])
+        i, o = Signal(sh, init=c["i0"]), Signal(sh)
+        kw = {} if c["init"] is None else {"init": c["init"]}
+        if not c["rl"] or c.get("rlx"):            # reset_less=True is the constructor default: pass it only sometimes
+            kw["reset_less"] = c["rl"]
+        m.submodules.dut = FFSynchronizer(i, o, stages=st, **kw, **dkw)
+        mon = _FFRMon(i, cd_o.rst, st, Const(c["init"] or 0, sh).value, bool(c.get("async")), c["rl"])
+        out = _drive(m, i, o, cd_o, None, False, c["ev"], mon, rst_mode=True)
         return [int(mon.ok)] + _pack_out(c, out)
     if k == "af":
         i, o = Signal(init=c["i0"]), Signal()
-        m.submodules.dut = AsyncFFSynchronizer(i, o, o_domain="o", stages=st, async_edge="pos" if c["pos"] else "neg")
+        ekw = {} if c["pos"] and c.get("dd") else {"async_edge": "pos" if c["pos"] else "neg"}   # "pos" is the default
+        m.submodules.dut = AsyncFFSynchronizer(i, o, stages=st, **ekw, **dkw)
         mon = _AFMon(i, st, c["pos"])
         out = _drive(m, i, o, cd_o, None, False, c["ev"], mon)
         return [int(mon.ok)] + _pack_out(c, out)
     if k == "rs":
         i = Signal(init=c["i0"])
-        m.submodules.dut = ResetSynchronizer(i, domain="o", stages=st)
+        m.submodules.dut = ResetSynchronizer(i, stages=st, **({} if dd else {"domain": "o"}))
         mon = _AFMon(i, st, True)
         out = _drive(m, i, cd_o.rst, cd_o, None, False, c["ev"], mon)
         return [int(mon.ok)] + _pack_out(c, out)
     if k == "ps":
-        m.domains.i = cd_i = ClockDomain("i")
-        m.submodules.dut = dut = PulseSynchronizer("i", "o", stages=st)
+        same = bool(c.get("same"))
+        negi = bool(c.get("negi"))
+        cd_i = None
+        if not same:
+            m.domains.i = cd_i = ClockDomain("i", clk_edge="neg" if negi else "pos")
+        m.submodules.dut = dut = PulseSynchronizer(dom if same else "i", dom, stages=st)
         dut.i = Signal(init=c["i0"] & 1)       # public attribute, read by elaborate()
         mon = _PSMon(dut.i, st)
-        out = _drive(m, dut.i, dut.o, cd_o, cd_i, neg, c["ev"], mon)
+        out = _drive(m, dut.i, dut.o, cd_o, cd_i, neg, c["ev"], mon, neg_i=negi, same=same)
         ok = mon.ok
         # conservation observed on the real component: separated word, flushed -> counts agree
-        if _py_separated(c["i0"], c["ev"]) and (mon.edges_since_pulse is None or mon.edges_since_pulse >= st):
+        if _py_separated(c["i0"], _eff_ev(c)) and (mon.edges_since_pulse is None or mon.edges_since_pulse >= st):
             ok = ok and mon.n_in == mon.n_out
         return [mon.n_in, mon.n_out, int(ok)] + _pack_out(c, out)
     raise ValueError(k)
@@ -412,10 +550,11 @@ def run_impl(c):
 # ------------------------------------------------------------------ model side
 def _fmt(c):
     """(fb, off) of the step codes and (ob, ooff) of the output codes of a case"""
-    if c["k"] == "ff":
+    if c["k"] in ("ff", "ffr"):
         w = c["w"]
+        ow = c.get("ow", w)
         fb = max(7, w + 2)
-        return ((2, 1) if c["r"] == "exh" else (fb, 1 << (fb - 1))), (w + 1, 1 << w)
+        return ((2, 1) if c["r"] == "exh" else (fb, 1 << (fb - 1))), (ow + 1, 1 << ow)
     return (2, 1), (1, 0)
 
 
@@ -439,7 +578,7 @@ def _pack_steps(c):
         f = 0 if v is None else v + off
         assert 0 <= f < (1 << fb) and (v is None or f > 0), (v, fb, off)
         codes.append(kind + 8 * f)
-    return f"(U {fb} {off} {len(codes)}%nat {zlist(_chunks(codes, 3 + fb))})"
+    return f"({'UR' if c['k'] == 'ffr' else 'U'} {fb} {off} {len(codes)}%nat {zlist(_chunks(codes, 3 + fb))})"
 
 
 def _pack_out(c, vals):
@@ -461,20 +600,24 @@ def coq_term(c):
     k = c["k"]
     if k == "ff":
         init = "None" if c["init"] is None else f"(Some {z(c['init'])})"
-        return (f"k_ff {z(c['w'])} {blit(c['sg'])} {c['st']}%nat {init} {blit(c.get('inv', False))} {z(c['i0'])} "
-                f"{_pack_steps(c)}")
+        return (f"k_ff {z(c['w'])} {blit(c['sg'])} {z(c.get('ow', c['w']))} {blit(c.get('osg', c['sg']))} {c['st']}%nat {init} "
+                f"{blit(c.get('inv', False))} {z(c['i0'])} {_pack_steps(c)}")
+    if k == "ffr":
+        init = "None" if c["init"] is None else f"(Some {z(c['init'])})"
+        return (f"k_ffr {z(c['w'])} {blit(c['sg'])} {c['st']}%nat {init} {blit(c.get('async', False))} {blit(c['rl'])} "
+                f"{z(c['i0'])} {_pack_steps(c)}")
     if k == "af":
         return f"k_af {blit(c['pos'])} {c['st']}%nat {z(c['i0'])} {_pack_steps(c)}"
     if k == "rs":
         return f"k_rs {c['st']}%nat {z(c['i0'])} {_pack_steps(c)}"
     if k == "ps":
-        return f"k_ps {c['st']}%nat {z(c['i0'])} {_pack_steps(c)}"
+        return f"k_ps {blit(c.get('same', False))} {c['st']}%nat {z(c['i0'])} {_pack_steps(c)}"
     if k == "sep":
         return f"k_sep {z(c['i0'])} {_pack_steps(c)}"
     if k == "stages":
         return f"k_stages {z(c['st'])}"
     if k == "posedge":
-        return f"k_posedge {blit(c['comp'] in ('af', 'rs'))} {blit(c['edge'] == 'pos')}"
+        return f"k_posedge {('ff', 'af', 'rs', 'ps').index(c['comp'])} {blit(c['edge'] == 'pos')}"
     raise ValueError(k)
 
 
@@ -488,7 +631,14 @@ def classify(c):
     if k == "ff":
         tag = ("/init=None" if c["init"] is None else "/init=0" if c["init"] == 0 else "/init=k") + \
               ("/i0=0" if c["i0"] == 0 else "/i0!=0") + ("/~sig" if c.get("inv") else "")
-    return f"{k}/st{c['st']}/{c['r']}" + tag + ("/negedge" if c.get("neg") else "")
+        if (c.get("ow", c["w"]), c.get("osg", c["sg"])) != (c["w"], c["sg"]):
+            tag += "/o-shape"
+    if k == "ffr":
+        tag = ("/async" if c.get("async") else "/sync") + ("/reset_less" if c["rl"] else "/resettable")
+    if k == "ps":
+        tag = ("/same-domain" if c.get("same") else "") + ("/i-negedge" if c.get("negi") else "")
+    return (f"{k}/st{c['st']}/{c['r']}" + tag + ("/negedge" if c.get("neg") else "") +
+            ("/default-domain" if c.get("dd") else ""))
 
 
 def nontrivial(c, obs):
@@ -508,7 +658,7 @@ def extra(tier, seed, findings):
             continue
         n += 1
         cur, since, n_in = c["i0"] & 1, None, 0
-        for kind, v in c["ev"]:
+        for kind, v in _eff_ev(c):
             if v is not None:
                 cur = v & 1
             if kind in (1, 3) and since is not None:
@@ -516,7 +666,7 @@ def extra(tier, seed, findings):
             if kind in (2, 3) and cur:
                 since, n_in = 0, n_in + 1
         pulses += n_in
-        if _py_separated(c["i0"], c["ev"]):
+        if _py_separated(c["i0"], _eff_ev(c)):
             sep += 1
             if n_in and since >= c["st"]:
                 flushed += 1
@@ -547,7 +697,7 @@ def shrink(case, obs, model):
     hdr = [1]
     if k == "ps":
         cur, n_in, n_out = case["i0"] & 1, 0, 0
-        for (kind, v), o in zip(c2["ev"], m_tr[1:n + 1]):
+        for (kind, v), o in zip(_eff_ev(c2), m_tr[1:n + 1]):
             if v is not None:
                 cur = v & 1
             n_in += int(kind in (2, 3) and cur == 1)
